@@ -970,7 +970,12 @@ their source (C06.12c/d); and THIS statement for any nesting whenever the coeffi
 den` is a linear forest (C06.12h/i), which is decidable (C06.12j: one `decide` per concrete filter).  What
 is left: that `Poly` arithmetic (`mulHub`, `divHub`, `gainHub`,
 `denseH`) on leaf Streams written once only builds linear forests (a statement about lists, no `next`
-in it; checked by `decide` on the depth-2 shape above); measured on the real code for nested shapes by the entry hub (where this
+in it; checked by `decide` on the depth-2 / depth-3 / Stream-gain shapes above; `hub_nested_reads_once_reduced`
+is the machine-checked reduction.  Proof plan: thread `Good up hi ls (ctx ++ coefficients)` — `Lin up (· < hi)`,
+elementwise `WF` / `Cons up`, `(expoR _).Nodup`, no top token in any upstream, sources within the leaves `ls` —
+through `PE.build` with the context `ctx` of polynomials built before; `thub` of a top coefficient `e` is
+`up := upd up hi e`; `accum` permutes `expoR`; the double loop of `mulHub` uses copy `(γ_i1, i2)` and
+`(δ_i2, i1)` once each; `denseH` / `filter` only drop coefficients); measured on the real code for nested shapes by the entry hub (where this
 very statement is also evaluated on every generated input). -/
 def hub_nested_reads_once_PENDING : Prop :=
   ∀ (srcs : Nat → Src K) (nsrc : Nat) (num den : PE K) (zero : K) (xs : List K),
